@@ -25,6 +25,45 @@ func callMatch(rec *fw.Rec, replay interface{}, p, m interface{}, in map[string]
 	return
 }
 
+// shifted returns a copy of x with every number moved by d.
+func shifted(x interface{}, d float64) interface{} {
+	switch t := x.(type) {
+	case float64:
+		return t + d
+	case map[string]interface{}:
+		m := make(map[string]interface{}, len(t))
+		for k, v := range t {
+			m[k] = shifted(v, d)
+		}
+		return m
+	case []interface{}:
+		l := make([]interface{}, len(t))
+		for i, v := range t {
+			l[i] = shifted(v, d)
+		}
+		return l
+	}
+	return x
+}
+
+// callMatchAfterOthers: a host matches many messages (and every branch of a node) against one
+// bindings object.  The same object is first used for matches against neighbouring messages
+// (every number one less, one more) and against the message itself; then comes the call
+// that is judged.
+func callMatchAfterOthers(rec *fw.Rec, replay interface{}, p, m interface{}, in map[string]interface{}) (bss []match.Bindings, err error, panicked bool) {
+	bs := match.Bindings{}
+	if in != nil {
+		bs = match.Bindings(fw.Deep(in).(map[string]interface{}))
+	}
+	panicked = rec.Guard("C02", replay, func() {
+		match.Match(p, shifted(m, -1), bs)
+		match.Match(p, shifted(m, 1), bs)
+		match.Match(p, fw.Deep(m), bs)
+		bss, err = match.Match(p, m, bs)
+	})
+	return
+}
+
 // planted: the planted assignment must be among the results.
 func planted(cfg fw.Config, rec *fw.Rec, idx int) {
 	r := cfg.Rng("c02-planted", idx)
@@ -50,7 +89,12 @@ func planted(cfg fw.Config, rec *fw.Rec, idx int) {
 			rec.Bucket("planted_with_go_typed_numbers_in_the_given_bindings")
 		}
 	}
-	bss, err, panicked := callMatch(rec, mc, mc.Pattern, mc.Message, in)
+	call := callMatch
+	if idx%3 == 1 {
+		call = callMatchAfterOthers
+		rec.Bucket("planted_judged_after_other_matches_with_the_same_bindings_object")
+	}
+	bss, err, panicked := call(rec, mc, mc.Pattern, mc.Message, in)
 	if panicked {
 		return
 	}
@@ -281,8 +325,8 @@ func exhaustive(cfg fw.Config, rec *fw.Rec) {
 }
 
 func Run(cfg fw.Config, rec *fw.Rec) {
-	rec.Rule = "(1) planted: pattern + assignment -> instantiated message, exact or inflated with extra properties/elements/broken clones at every depth; the planted assignment must be among the results; (2) plain-variable fragment: result set == brute-force set of embeddings; (3) exhaustive: all supported patterns x messages over alphabet {a,b}, variables {?x,?y} up to a node bound, soundness + completeness decided per pair (this sub-space is enumerated completely); non-trivial = >=1 variable and >=1 result; distinct by canonical (pattern,message,bindings)"
-	rec.Required = []string{"planted_inflated", "planted_planted", "plain_set_equality_checked", "plain_several_embeddings", "exhaustive_pairs", "exhaustive_set_equality_checked", "exhaustive_completeness_checked_repeated_vars", "optional_absent", "inequality", "property_variable", "array_variable", "prebound_variable", "repeated_variable", "planted_with_go_typed_numbers_in_the_given_bindings"}
+	rec.Rule = "(1) planted: pattern + assignment -> instantiated message, exact or inflated with extra properties/elements/broken clones at every depth; the planted assignment must be among the results - for a third of the cases after three other matches (the message with every number one less, one more, and itself) that were given the same bindings object; (2) plain-variable fragment: result set == brute-force set of embeddings; (3) exhaustive: all supported patterns x messages over alphabet {a,b}, variables {?x,?y} up to a node bound, soundness + completeness decided per pair (this sub-space is enumerated completely); non-trivial = >=1 variable and >=1 result; distinct by canonical (pattern,message,bindings)"
+	rec.Required = []string{"planted_inflated", "planted_planted", "plain_set_equality_checked", "plain_several_embeddings", "exhaustive_pairs", "exhaustive_set_equality_checked", "exhaustive_completeness_checked_repeated_vars", "optional_absent", "inequality", "property_variable", "array_variable", "prebound_variable", "repeated_variable", "planted_with_go_typed_numbers_in_the_given_bindings", "planted_judged_after_other_matches_with_the_same_bindings_object"}
 	rec.Assume = []string{"completeness is judged only under the property's side conditions: arrays are sets, a value planted under an array variable differs from the array's other members, repeated variables take scalar values", "brute-force candidates are the sub-terms / property names of the message"}
 	t0 := time.Now()
 	fw.Parallel(cfg.Workers, cfg.Pick(300000, 6000000), func(w, idx int) { planted(cfg, rec, idx) })
